@@ -54,7 +54,37 @@ def node_lit(n):
     return f"(Node {cstr(n.domain if n.domain != 'ai.onnx' else '')} {cstr(n.op_type)} {ins} {outs} {clist(attrs)} {clist(subs)})"
 
 
+PH = "\x01"  # first character of the pseudo names of Export/Placeholders.v (`ph_name i` = \001 ++ "_<i>")
+
+
+def ph_pseudo(i):
+    return f"{PH}_{i}"
+
+
+def cname(x):
+    """Coq term of a name of the mapper's sequence (a pseudo name of the reserved-placeholder variant is printed as `ph_name i`)"""
+    return f"(ph_name {int(x[2:])})" if x.startswith(PH) else cstr(x)
+
+
+def ph_reserved():
+    from harness import c13_variants
+    return c13_variants.detect()["ph_reserved"]
+
+
+def outputs_with_placeholders(n):
+    """the outputs of a node as the exporter hands them to its name pool: in the reserved-placeholder variant an omitted
+    output of a generic node is the pseudo name of its index"""
+    if not ph_reserved() or n.op_type in ("If", "Loop"):
+        return [o for o in n.output if o != ""]
+    return [o if o != "" else ph_pseudo(i) for i, o in enumerate(n.output)]
+
+
 def graph_lit(proto):
+    lit = _graph_lit(proto)
+    return f"(ph_graph {lit})" if ph_reserved() else lit
+
+
+def _graph_lit(proto):
     if isinstance(proto, onnx.ModelProto):
         g = proto.graph
         ins, inits, outs = [i.name for i in g.input], [i.name for i in g.initializer], [o.name for o in g.output]
@@ -204,13 +234,16 @@ def renamer_sequence(proto):
     real helper); ModelProto: per node the outputs, then the inputs; then the graph outputs (initializers: not covered)."""
     if isinstance(proto, onnx.FunctionProto):
         from onnxscript.backend import onnx_export as E
-        return [x for x in E._names_used_in_function(proto) if x != ""]
+        seq = [x for x in E._names_used_in_function(proto) if x != ""]
+        for n in proto.node:  # every value is named before the body is printed; the placeholders are reserved while it is
+            seq.extend(o for o in outputs_with_placeholders(n) if o.startswith(PH) and o not in seq)
+        return seq
     from harness import c13_variants
     seq = []
     if c13_variants.detect()["init_raw_key"]:  # C13_02: the Constant of an initializer keeps its ONNX name, translated once, first
         seq.extend(i.name for i in proto.graph.initializer)
     for n in proto.graph.node:
-        seq.extend(o for o in n.output if o != "")
+        seq.extend(outputs_with_placeholders(n))
         seq.extend(i for i in n.input if i != "")
     seq.extend(o.name for o in proto.graph.output)
     if c13_variants.detect()["sig_renamed"]:  # C13_01: the signature is renamed too, after the body and the return values
@@ -226,6 +259,8 @@ def renamer_sequence(proto):
 def names_collide(proto):
     from onnxscript.backend import onnx_export as E
     names = G.all_names(proto)
+    if ph_reserved() and any(__import__("re").fullmatch(r"_\d+(_\d+)*", E._cleanup_variable_name(n)) for n in names):
+        return True  # a value whose Python name looks like a placeholder: the pool decides who gets which name
     return len({E._cleanup_variable_name(n) for n in names}) != len(set(names))
 
 
@@ -249,19 +284,21 @@ def rename_term(proto, rename, seq, prelude=None, tag="0"):
     (Export/Unique.v, repair C13_07) when the implementation has it and the names of the model collide after clean-up
     (without collisions the wrapper is the identity on the base names)"""
     from harness import c13_variants
+    real = [x for x in seq if not x.startswith(PH)]  # the short-name mapper never sees a placeholder
+    wrap = (lambda b: f"(ph_base {b})") if ph_reserved() else (lambda b: b)
     if prelude is None:  # no place for definitions: inline terms (re-evaluated at every call inside Coq; small inputs only)
-        base = f"(short_map kwlist {clist(seq, cstr)})" if rename else "(cleanup kwlist)"
+        base = wrap(f"(short_map kwlist {clist(real, cstr)})" if rename else "(cleanup kwlist)")
         if c13_variants.detect()["unique_names"] and names_collide(proto):
-            return f"(uniq_fn {base} {clist(seq, cstr)})"
+            return f"(uniq_fn {base} {clist(seq, cname)})"
         return base
     base = "(cleanup kwlist)"
     if rename:  # the dictionaries are evaluated once, when the definition is made
-        prelude.append(f"Definition sq{tag} : list string := {clist(seq, cstr)}.")
-        prelude.append(f"Definition sm{tag} := Eval vm_compute in (combine sq{tag} (snd (short_rename_all kwlist [] sq{tag}))).")
+        prelude.append(f"Definition sr{tag} : list string := {clist(real, cstr)}.")
+        prelude.append(f"Definition sm{tag} := Eval vm_compute in (combine sr{tag} (snd (short_rename_all kwlist [] sr{tag}))).")
         base = f"(assoc_rename sm{tag} (cleanup kwlist))"
+    base = wrap(base)
     if c13_variants.detect()["unique_names"] and names_collide(proto):
-        if not rename:
-            prelude.append(f"Definition sq{tag} : list string := {clist(seq, cstr)}.")
+        prelude.append(f"Definition sq{tag} : list string := {clist(seq, cname)}.")
         prelude.append(f"Definition um{tag} := Eval vm_compute in (uniq_map {base} sq{tag}).")
         return f"(uniq_apply um{tag} {base})"
     return base
@@ -311,7 +348,7 @@ def coq_body(items):
     return "\n".join(lines)
 
 
-REQUIRES = ["OV.Gen.ExportTables", "OV.Export.Cleanup", "OV.Export.Unique", "OV.Graph.Syntax", "OV.Script.Syntax", "OV.Export.Emit"]
+REQUIRES = ["OV.Gen.ExportTables", "OV.Export.Cleanup", "OV.Export.Unique", "OV.Graph.Syntax", "OV.Script.Syntax", "OV.Export.Emit", "OV.Export.Placeholders"]
 
 
 # ----------------------------------------------------------------------------------------------- generator
